@@ -49,13 +49,15 @@ def setup(ctx):
         if a and b and c:
             br['all3'] += 1
             ctx.case_all3 = True
-    ctx.probe = monitor.LineProbe(kmedoids._kmedoids_pam_update,
-                                  'new_medoids = medoid_coords.copy()', probe)
+    ctx.probe = monitor.LineProbe(
+        kmedoids._kmedoids_pam_update,
+        'ambig_assigs, ambig_dists = util.assign_to_nearest_center(', probe)
     ctx.info['pam_probe_attached'] = ctx.probe.attached
 
 
 def teardown(ctx):
     ctx.count('pam_probe_hits', ctx.probe.hits)
+    ctx.count('pam_probe_errors', ctx.probe.errors)
     for k, v in ctx.branches.items():
         ctx.count('pam_branch_' + k, v)
 
@@ -105,8 +107,11 @@ def run_entry(entry, X, metric_name, rng, p, calls):
         ninit = max(1, min(k - 1, int(rng.integers(1, 4))))
         init = X[rng.choice(n, size=min(ninit, n), replace=False)]
         kk = max(k, len(init) + 1)
+        init = init.copy()
+        if rng.random() < 0.5:
+            init = [r for r in init]          # a plain list of frames
         return do(kcenters.kcenters, X, m, n_clusters=min(kk, n),
-                  init_centers=init.copy()), None
+                  init_centers=init), None
     seed = p['seed']
     iters = p['iters']
     if entry == 'km_cold':
@@ -164,8 +169,11 @@ def run_entry(entry, X, metric_name, rng, p, calls):
     if entry == 'hy_init':
         init = X[rng.choice(n, size=min(2, n), replace=False)]
         kk = min(max(k, len(init) + 1), n)
+        init = init.copy()
+        if rng.random() < 0.5:
+            init = [r for r in init]          # a plain list of frames
         return do(hybrid.hybrid, X, m, n_iters=iters, n_clusters=kk,
-                  init_centers=init.copy(), random_state=seed), None
+                  init_centers=init, random_state=seed), None
     if entry == 'km_props':
         props = [int(x) for x in rng.integers(0, n, size=k)]
         return do(kmedoids.kmedoids, X, m,
